@@ -10,7 +10,7 @@ where
     F: Fn(f64) -> f64,
 {
     let dx: f64 = (b - a) / (n as f64);
-    dx * ((0..n).map(|k| f(a + k as f64 * dx)).sum::<f64>() + (f(b) + f(a)) / 2.)
+    dx * ((1..n).map(|k| f(a + k as f64 * dx)).sum::<f64>() + (f(b) + f(a)) / 2.)
 }
 
 /// Integrate a function `f` from `a` to `b` using the [Romberg method](https://en.wikipedia.org/wiki/Romberg%27s_method),
